@@ -53,7 +53,7 @@ def cases(draw):
                 r["ub"] = -1
     return {
         "spec": spec,
-        "path": draw(st.sampled_from(build.BUILD_PATHS)),
+        "path": draw(st.sampled_from(build.BUILD_PATHS_LP)),
         "method": draw(st.sampled_from(["pfba", "pfba", "moma", "room", "room_linear"])),
         "fraction": draw(st.sampled_from([1, 1, 0, 0.5, 0.9])),
         "objective_arg": draw(st.sampled_from(["none", "none", "dict", "reaction"])),
